@@ -61,6 +61,9 @@ def is_bytes(t):
     return False
 
 
+_DIGEST_LEN = {"sha1": 20, "sha256": 32, "sha224": 28, "sha384": 48, "sha512": 64, "md5": 16}
+
+
 def canon1(t):
     k = t[0]
     # --- folding of trivial python
@@ -143,6 +146,16 @@ def canon1(t):
             return mk_cat([x if x[0] in ("cat", "fmt") or (x[0] == "c" and isinstance(x[1], str)) else ("fmt", x, "+") for x in (t[2], t[3])])
         if t[2][0] in nums or t[3][0] in nums:
             return ("op", "+", *sorted([t[2], t[3]], key=repr))
+    if k == "op" and t[1] == "%" and t[2][0] == "c" and isinstance(t[2][1], str) and t[2][1].count("%") == 1 and t[3][0] not in ("list", "tuple", "dict"):
+        # printf-style formatting of one value: '%06d' % x is the replacement field {x:06d}
+        import re as _re
+        m_ = _re.match(r"^(.*?)%([-0 #+]*\d*(?:\.\d+)?)([dsxX])(.*)$", t[2][1], _re.S)
+        if m_:
+            spec = "" if m_.group(3) == "s" and not m_.group(2) else m_.group(2) + m_.group(3)
+            parts = ([("c", m_.group(1))] if m_.group(1) else []) + [("fmt", t[3], spec)] + ([("c", m_.group(4))] if m_.group(4) else [])
+            return mk_cat(parts)
+    if k == "idx" and t[2][0] == "c" and isinstance(t[2][1], int) and t[2][1] < 0 and t[1][0] in ("hmac", "hash") and t[1][1] in _DIGEST_LEN:
+        return ("idx", t[1], ("c", _DIGEST_LEN[t[1][1]] + t[2][1]))  # digest[-1] of a 20-octet SHA-1 value is digest[19]
     if k == "cat":
         return mk_cat(list(t[1:]))
     if k == "fmt" and t[2] in ("", "!s") and t[1][0] == "c" and isinstance(t[1][1], str):
